@@ -20,6 +20,8 @@ OneDim ==
   \cup {[Base EXCEPT !.spell = s, !.params = {"q_int_bounds", "header_str_len", "q_strings_items"}] : s \in Spellings}
 Programs == {[op |-> o, merge |-> "none"] : o \in OneDim} \cup {[op |-> Base, merge |-> "unrelated"]}
             \cup {[op |-> [Base EXCEPT !.method = m, !.id = "op" \o m, !.params = {"q_string", "q_int_bounds"}], merge |-> "same_op"] : m \in Methods}
+            \cup {[op |-> [Base EXCEPT !.blocks = b, !.params = pk], merge |-> "self"] :
+                    b \in {{}, {"inline_params"}, {"inline_params", "consumes", "security"}}, pk \in {{}, {"q_string", "q_int_bounds"}}}
             \cup {[op |-> o, merge |-> "none"] : o \in RandomSubset(NSample, OpsAll)}
 LineSeqs == UNION {[1..n -> LineClasses] : n \in 1..MaxLines}
 Hosts == {"model", "route", "field", "package", "params"}
